@@ -66,7 +66,7 @@ func (w *World) runOracles(pre *Snapshot, op Op, res *StepResult, post *Snapshot
 		w.oracleC10(pre, op, res, post)
 	}
 	if on("C11") {
-		w.oracleC11(pre, post, decision, binds)
+		w.oracleC11(pre, op, post, decision, binds)
 	}
 	if on("C06") {
 		w.oracleC06(pre, op, res, post)
@@ -109,15 +109,42 @@ func (w *World) oracleC01(pre *Snapshot, op Op, post *Snapshot, decision bool, b
 				w.vio("C01", "%s requires node %s but was bound to %s", b.A.Key, b.A.ReqNode, b.Node)
 			}
 			if len(pn.Reservations) > 0 && b.A.ReqNode != b.Node {
+				// "not reserved for a different ask": the cycle may first drop a reservation that should not exist any
+				// more (its ask was allocated by the RM, or it waited too long for quota) and then use the node. What
+				// is never allowed: binding another ask while the reservation is still in place afterwards, or while
+				// the reserving ask is still waiting and nothing entitled the cycle to drop its reservation.
 				mine := false
 				for _, r := range pn.Reservations {
 					if r.Key == b.A.Key {
 						mine = true
+						continue
+					}
+					still := false
+					if postN := post.Nodes[b.Node]; postN != nil {
+						for _, pr := range postN.Reservations {
+							if pr.Key == r.Key {
+								still = true
+							}
+						}
+					}
+					waiting := func(s *Snapshot) bool {
+						app := s.Apps[r.App]
+						if app == nil {
+							return false
+						}
+						ask := app.Asks[r.Key]
+						return ask != nil && !ask.Allocated
+					}
+					switch {
+					case still:
+						w.vio("C01", "%s bound to node %s which was and still is reserved for %s", b.A.Key, b.Node, r.Key)
+					case waiting(pre) && waiting(post) && !w.Opts.ShortResvWait:
+						w.vio("C01", "%s bound to node %s which was reserved for the waiting ask %s (reservation dropped by the cycle without cause)", b.A.Key, b.Node, r.Key)
+					default:
+						w.Tag("bind-after-stale-reservation-dropped")
 					}
 				}
-				if !mine {
-					w.vio("C01", "%s bound to node %s which was reserved for %v", b.A.Key, b.Node, pn.Reservations)
-				} else {
+				if mine {
 					w.Tag("bind-on-own-reservation")
 				}
 			}
@@ -713,7 +740,9 @@ func (w *World) oracleC10(pre *Snapshot, op Op, res *StepResult, post *Snapshot)
 
 // ---------------------------------------------------------------------------------------------- C11
 
-func (w *World) oracleC11(pre, post *Snapshot, decision bool, binds []newBinding) {
+var forcedRunOps = map[string]bool{OpReportBound: true, OpHostile: true}
+
+func (w *World) oracleC11(pre *Snapshot, op Op, post *Snapshot, decision bool, binds []newBinding) {
 	if decision {
 		seen := map[string]bool{}
 		for _, b := range binds {
@@ -761,7 +790,16 @@ func (w *World) oracleC11(pre, post *Snapshot, decision bool, binds []newBinding
 		q := post.Queues[path]
 		running, ids := below(path, "Running")
 		if q.MaxApps > 0 && q.RunningApps > q.MaxApps {
-			w.vio("C11", "queue %s reports %d running applications, maximum is %d", path, q.RunningApps, q.MaxApps)
+			// the count may be above the maximum only because the maximum was lowered (reload, application tag on a
+			// dynamic queue) or the RM forced an application to run (allocation reported as already bound); the
+			// scheduler itself never takes it there, and nothing else may raise it further
+			pq := pre.Queues[path]
+			grew := pq == nil || q.RunningApps > pq.RunningApps
+			if grew && (decision || !forcedRunOps[op.Kind]) {
+				w.vio("C11", "queue %s reports %d running applications, maximum is %d (count grew in step %s)", path, q.RunningApps, q.MaxApps, op.Kind)
+			} else {
+				w.Tag("c11-running-above-lowered-max")
+			}
 		}
 		if q.RunningApps > uint64(running) {
 			w.vio("C11", "queue %s reports %d running applications, only %d applications below it are Running", path, q.RunningApps, running)
